@@ -10,6 +10,7 @@ META = {
     "level": "Decides the structural clauses: every glob token is regex-escaped before '*' becomes '.*', anchored at both ends and matched as a whole; '*'/'' mean no constraint and a star-free token is an exact match; slot, sub-slot, category and package tokens are each tested, converted and wrapped under their own name and attribute; restrictions split off for ::repo, :slot and /subslot survive every path, including the globbed-target-with-version fallback; a string containing '!' is rejected before anything else; a query is handed to the atom parser whole only when no position holds a glob (or an operator leads, with the globbed fallback). Does NOT decide selection on concrete package universes.",
     "note": "",
 }
+META["technique"] += "; " + 'generic pack G on the anchored files (optional-flag shift, closures outliving a loop iteration, single-pass iterables consumed twice, %-templates built from data, in-place writes to class-level / memoised objects, generators mutating what they yielded, memo keys that are projections)'
 MOD = "pkgcore.util.parserestrict"
 
 
